@@ -430,6 +430,11 @@ func runHistories(r *ev.Run) {
 		variants = append(variants, chain.GenesisOptions{Runtime: true, RtGroupSize: 2, RtBackupSize: 1, EpochInterval: 3, NodeExpirations: []uint64{40, 3, 40}})
 	}
 	if prop == "C01" {
+		// a minimum gas price: most transactions of the alphabet are under-priced and must be refused by
+		// every replica alike, whatever simulations and mempool checks a replica served in between
+		variants = append(variants, chain.GenesisOptions{MinGasPrice: 1, EpochInterval: 3})
+	}
+	if prop == "C01" {
 		// all entities tied and the validator limit cutting into the tie: any order-dependent
 		// step of the election makes replicas disagree
 		variants = append(variants, chain.GenesisOptions{Escrow: []uint64{1500, 2000, 2500}, MaxValidators: 2, EpochInterval: 1, NodeExpiration: 12})
